@@ -124,7 +124,10 @@ PROTOCOL_HASH_KEY = b"vgi_rpc.protocol_hash"
 # (wire framing) and from any catalog-level data-version semantics.
 PROTOCOL_VERSION_KEY = b"vgi_rpc.protocol_version"
 
-SEMVER_REGEX = re.compile(r"^(0|[1-9]\d*)\.(0|[1-9]\d*)\.(0|[1-9]\d*)$")
+# ``[0-9]`` and ``\Z`` rather than ``\d`` and ``$``: ``\d`` also matches non-ASCII
+# decimal digits (which ``int()`` then happily converts) and ``$`` also matches
+# before a trailing newline, so both would admit non-canonical versions.
+SEMVER_REGEX = re.compile(r"^(0|[1-9][0-9]*)\.(0|[1-9][0-9]*)\.(0|[1-9][0-9]*)\Z")
 
 
 def parse_version(value: str) -> tuple[int, int, int]:
